@@ -208,3 +208,10 @@ Theorem C11_cycle_guard_exact_nonvacuous :
   guard_C11_tx (disk_of cycle_store) cycle_cache cycle_op = false.
 Proof. exact cycle_guard_exact_nonvacuous. Qed.
 Print Assumptions C11_cycle_guard_exact_nonvacuous.
+
+(* the cycle guard never rejects a store of a new identifier (overwrite-creates-cycle needs an overwrite of an
+   identifier that is already stored) *)
+Theorem C11_store_passes_cycle_guard : forall v b d c n steps c',
+  wf d c -> plan_of v b d c (OStore n) = PSteps steps c' -> guard_C11_cycle d c (OStore n) = true.
+Proof. exact store_passes_cycle_guard. Qed.
+Print Assumptions C11_store_passes_cycle_guard.
